@@ -59,7 +59,7 @@ type Work struct {
 
 // the library of SharedBase: functions that go through every calling convention (fixed arities below and above
 // the fast path, variadic, with a deferred call, returning a closure)
-const baseLibSrc = "func blib1(a) { return a }\nfunc blib5(a, b, c, d, e) { return [a, b, c, d, e] }\nfunc blibv(x, r...) { return [x, r] }\nfunc blibd(a, b, c, d, e, f) {\ndefer func(q) { return q }(a)\nreturn [f, a]\n}\nfunc blibk(a) { return func(b...) { return [a, b] } }"
+const baseLibSrc = "func blib1(a) { return a }\nfunc blib5(a, b, c, d, e) { return [a, b, c, d, e] }\nfunc blibv(x, r...) { return [x, r] }\nfunc blibd(a, b, c, d, e, f) {\ndefer func(q) { return q }(a)\nreturn [f, a]\n}\nfunc blibk(a) { return func(b...) { return [a, b] } }\nfunc blibw(a, b, c, d, r...) { return [a, d, r] }\nfunc blib6(a, b, c, d, e, f) { return [a, f] }\nfunc blibx(a, b, c, d, e, r...) { return [e, r] }"
 
 var (
 	baseLibOnce sync.Once
@@ -151,7 +151,7 @@ var templates = []func(u string) string{
 		return "rec(blib5(base, 1, hostA(2), \"s\", base))\nrec(blibv(base, base, hostA(1)))\nrec(blibv(hostA(3)))\nrec(blib1(base))"
 	},
 	func(u string) string {
-		return "rec(blibd(base, 2, 3, 4, 5, hostA(6)))\nk" + u + " = blibk(base)\nrec(k" + u + "(base, 1))\nrec(blibv([base, base]...))"
+		return "rec(blibw(base, 2, 3, 4, 5, base))\nrec(blib6(1, 2, 3, 4, 5, base))\nrec(blibx(1, 2, 3, 4, base))\nrec(blib5(1, 2, 3, 4, base))\nrec(blibd(base, 2, 3, 4, 5, hostA(6)))\nk" + u + " = blibk(base)\nrec(k" + u + "(base, 1))\nrec(blibv([base, base]...))"
 	},
 	// chains of three and five else-ifs (the parser grows such lists one element at a time: they have spare capacity)
 	func(u string) string {
